@@ -52,7 +52,15 @@ def make_older(cls, drop_top, nested_drops=None):
             hint = _retarget(hint, nested_drops)
         fields.append((f.name, hint, betterproto.dataclass_field(
             meta.number, meta.proto_type, map_types=meta.map_types, group=meta.group, wraps=meta.wraps, optional=bool(meta.optional))))
-    older = dataclasses.make_dataclass(f"{cls.__name__}Older", fields, bases=(betterproto.Message,), eq=False, repr=False)
+    ns = {}
+    if len(frozenset(drop_top)) % 2:
+        # what the plugin generates for a message with deprecated fields: an own __post_init__ that calls the base's
+        # (half of the older readers - those that drop an odd number of fields - have one)
+        def __post_init__(self):
+            betterproto.Message.__post_init__(self)
+
+        ns["__post_init__"] = __post_init__
+    older = dataclasses.make_dataclass(f"{cls.__name__}Older", fields, bases=(betterproto.Message,), eq=False, repr=False, namespace=ns)
     _older_cache[key] = older
     return older
 
